@@ -469,12 +469,15 @@ def r4_replay(ck, rule="C04-R4"):
                 found = True
     ck.require(found, rule, "rollback target line assigned in try_apply_hunk", "no assignment of target_line on the Rollback edge", tah.where())
     # the position scan is never entered in rollback mode: second `matches` call is in the Normal-only part
+    from . import c02
+    from .. import pathconst
     mcalls = calls_named(tah, "libpatch::patch::try_apply_hunk::matches")
-    ck.floor(rule, "calls of the matches helper in try_apply_hunk", len(mcalls), 2)
-    inloop = [(bb, t) for bb, t, c in mcalls if cfg.innermost_loop_of(tah, bb)]
-    normal_edges = {sw["edges"]["Normal"] for sw in sws if "Normal" in sw["edges"]}
+    scans = c02.scan_sites(ck, tah)
+    ck.floor(rule, "direct probe and position scan in try_apply_hunk", len([1 for bb, t, c in mcalls if not cfg.innermost_loop_of(tah, bb)]) + len(scans), 2)
+    inloop = [(sc["bb"], sc["term"]) for sc in scans]
     for bb, t in inloop:
-        r = cfg.reachable(tah, 0, disabled=normal_edges)
+        # apply_mode is a path constant of the call; the test may go through a flag computed from it
+        r = pathconst.reach_under(tah, lambda e: None, lambda e, adt: "Rollback" if (adt or "").endswith("ApplyMode") else None)
         ck.require(bool(sws) and bb not in r, rule, "rollback never searches for another position",
                    "the position scan is reachable in rollback mode", tah.where(t))
     # (b) apply_modify: fuzz levels in rollback mode are exactly the recorded level
